@@ -199,7 +199,7 @@ def coq_make(targets=(), timeout=2400):
         cp = COQ / "_CoqProject"
         if not mk.exists() or mk.stat().st_mtime < cp.stat().st_mtime:
             sh(["coq_makefile", "-f", "_CoqProject", "-o", "Makefile"], cwd=COQ)
-        rc, out, err = sh(["make", "-j16", "--no-print-directory"] + list(targets), cwd=COQ, timeout=timeout)
+        rc, out, err = sh(["make", "-j" + os.environ.get("VERIF_MAKE_J", "8"), "--no-print-directory"] + list(targets), cwd=COQ, timeout=timeout)
     return rc == 0, out + err
 
 
